@@ -140,7 +140,7 @@ EXTRA = {
     'C13': ' Later: out-of-domain addresses built and rendered between the valid round trips.',
     'C14': ' Later: id-like bytes where they must stay bytes, bytes-like field values, damaged parses and a storm of failing nested payloads between valid calls on one schemas object. Round 8: several TL objects in one bytes field (parsed to a list; what the parser returns must serialise back).',
     'C15': ' Later: exotic bodies, NFT data from address text, highload wallet data with queries, damaged parses before valid ones. Round 8: exotic bodies when header and inline state-init take all four references.',
-    'C16': ' Later: damaged versions of each cell parsed before the valid one.',
+    'C16': ' Later: damaged versions of each cell parsed before the valid one. Round 8: McBlockExtra (key and non-key blocks, shard fees with and without extra currencies, signatures, recover / mint messages, config, sentinel).',
     'C17': ' Later: re-serialisation of everything parsed, VmStackList directly, keyword order of continuations, failed-then-repaired serialisation, tuples / nesting / stacks up to 1000 (recorded finding above ~490 levels).',
     'C18': ' Later: inputs built around every 2..8-byte constant of the library source; valid calls right after calls with invalid arguments.',
     'C19': ' Later: leafless ladders ending in library / Merkle cells, equal DAGs made of distinct objects. Round 8: dictionary families measured against the input size n+e (three recorded findings: augmented parser on leafless ladders through both entry points, plain parser on shared subtrees that yield leaves).',
